@@ -53,7 +53,9 @@ type Free struct {
 	// Scn != "": a scripted lease scenario (lease.go) with lease LeaseMs; HoldU = the long hold in units of TTL/20
 	Scn   string `json:"scn,omitempty"`
 	HoldU int    `json:"hold_u,omitempty"`
-	Warm  bool   `json:"warm,omitempty"` // lease scenario: the timer package has just served a burst (idle workers parked)
+	Warm  bool   `json:"warm,omitempty"`
+	Far   bool   `json:"far,omitempty"`   // lease scenario: an unrelated timer due in an hour is pending in the process
+	Redis bool   `json:"redis,omitempty"` // lease scenario: the Redis client over an in-process server (clock pumped every ms) // lease scenario: the timer package has just served a burst (idle workers parked)
 }
 
 // sigStore passes every call through. The renewal call of the CURRENT tenure of a lock name (it presents
